@@ -10,6 +10,9 @@
 (* which is what makes the laws of C03/C04/C06/C07/C08 provable on it.     *)
 (*                                                                         *)
 (* Outcomes:  "T" (true, nil)   "F" (false, nil)   "E" (false, error)      *)
+(*            "?" the case depends on behaviour of the pointerstructure /  *)
+(*                mapstructure dependency that is not modelled (maps keyed *)
+(*                by arrays, structs, pointers): no expectation            *)
 (*                                                                         *)
 (* Abstract values (AV) - records tagged by k:                             *)
 (*  [k:"nil"]                       nil interface (JSON null)              *)
@@ -33,7 +36,7 @@ CONSTANT RegexTab   \* pattern -> [bad |-> TRUE] or [bad |-> FALSE, yes |-> <<st
 
 None == [k |-> "none"]
 B(b) == IF b THEN "T" ELSE "F"
-Neg3(x) == IF x = "T" THEN "F" ELSE IF x = "F" THEN "T" ELSE "E"
+Neg3(x) == IF x = "T" THEN "F" ELSE IF x = "F" THEN "T" ELSE x       \* E stays E (and "?" stays "?")
 AndTab(a, b) == IF a = "T" THEN b ELSE a          \* and: A's outcome if A is F or E, else B's
 OrTab(a, b) == IF a = "F" THEN b ELSE a           \* or:  A's outcome if A is T or E, else B's
 
@@ -167,6 +170,7 @@ AbsentTab(op) == IF op \in {"==", "in", "matches", "notempty"} THEN "F" ELSE "T"
 Ok(v) == [r |-> "ok", v |-> v]
 Nf == [r |-> "nf"]
 Er == [r |-> "err"]
+Unm == [r |-> "unm"]     \* behaviour of the dependency that this specification does not model (outcome "?")
 
 KeyOf(kt, part) ==
   LET p0 == IF part = "" THEN "0" ELSE part IN
@@ -177,7 +181,7 @@ KeyOf(kt, part) ==
                         IF rd.r = "ok" THEN rd ELSE IF part = "" THEN [r |-> "ok", b |-> FALSE] ELSE Er
     [] kt.c = "f32"  -> LET rd == ReadFloat(p0, 32) IN IF rd.r = "ok" THEN rd ELSE Er
     [] kt.c = "f64"  -> LET rd == ReadFloat(p0, 64) IN IF rd.r = "ok" THEN rd ELSE Er
-    [] OTHER -> Er
+    [] OTHER -> Unm       \* array / struct / pointer / ... keys: mapstructure's weak decoding of the part is not modelled
 
 KeyMatches(kt, rd, key) ==
   IF kt.c = "iface" THEN key.k = "str" /\ key.t = "string" /\ key.v = rd.s
@@ -185,7 +189,8 @@ KeyMatches(kt, rd, key) ==
 
 GetMap(m, part) ==
   LET rd == KeyOf(m.kt, part) IN
-  IF rd.r # "ok" THEN Er
+  IF rd.r = "unm" THEN Unm
+  ELSE IF rd.r # "ok" THEN Er
   ELSE LET hits == {i \in 1..Len(m.v) : KeyMatches(m.kt, rd, m.v[i].key)} IN
     IF hits = {} THEN Nf ELSE Ok(m.v[CHOOSE i \in hits : TRUE].val)
 
@@ -262,6 +267,7 @@ Resolve(d, path, env, cfg) ==
   ELSE IF w.r = "val" THEN Ok(w.v)
   ELSE LET g == Get(d, w.path, 1, cfg) IN
     IF g.r = "ok" THEN g
+    ELSE IF g.r = "unm" THEN Unm
     ELSE IF g.r = "err" THEN Er
     ELSE IF cfg.unknown.k # "none" THEN Ok(cfg.unknown)
     ELSE IF ParentIsMap(d, w.path, cfg) THEN [r |-> "absent"]
@@ -292,7 +298,7 @@ Fold(e, c, i, d, env, cfg) ==
   ELSE IF e.mode = "both" /\ e.n1 = e.n2 THEN "E"
   ELSE LET b == IF c.k = "map" THEN BindMap(e, c.v[i].key) ELSE BindList(e, i)
            r == Den(e.e, d, env \o b, cfg)
-       IN IF r = "E" THEN "E"
+       IN IF r = "E" \/ r = "?" THEN r
           ELSE IF (r = "T" /\ e.op = "any") \/ (r = "F" /\ e.op = "all") THEN r
           ELSE Fold(e, c, i + 1, d, env, cfg)
 
@@ -302,12 +308,14 @@ Den(e, d, env, cfg) ==
     [] e.t = "or"  -> LET a == Den(e.l, d, env, cfg) IN IF a = "F" THEN Den(e.r, d, env, cfg) ELSE a
     [] e.t = "match" ->
          LET r == Resolve(d, e.sel.path, env, cfg) IN
-         IF r.r = "err" THEN "E"
+         IF r.r = "unm" THEN "?"
+         ELSE IF r.r = "err" THEN "E"
          ELSE IF r.r = "absent" THEN AbsentTab(e.op)
          ELSE MatchOp(e.op, r.v, e.val)
     [] e.t = "coll" ->
          LET r == Resolve(d, e.sel.path, env, cfg) IN
-         IF r.r = "err" THEN "E"
+         IF r.r = "unm" THEN "?"
+         ELSE IF r.r = "err" THEN "E"
          ELSE IF r.r = "absent" THEN B(e.op = "all")
          ELSE LET c == r.v IN
            IF c.k = "map" THEN
@@ -323,7 +331,7 @@ Outcome(e, d, cfg) == Den(e, d, <<>>, cfg)
 SelClass(e, d, cfg) ==
   LET c0 == [cfg EXCEPT !.unknown = None]
       g == Get(d, e.sel.path, 1, c0)
-  IN IF g.r = "ok" THEN "ok" ELSE IF g.r = "err" THEN "err" ELSE IF ParentIsMap(d, e.sel.path, c0) THEN "absent" ELSE "nf"
+  IN IF g.r = "ok" THEN "ok" ELSE IF g.r = "err" THEN "err" ELSE IF g.r = "unm" THEN "unm" ELSE IF ParentIsMap(d, e.sel.path, c0) THEN "absent" ELSE "nf"
 
 \* the elements of a top-level quantifier as the specification sees them: [ok, kind, parts]
 ElemParts(e, d, cfg) ==
